@@ -15,6 +15,7 @@ Two differentials against the Lean models (`OnlVerif/Tcp/Sink.lean`, `OnlVerif/T
   cumulative ACK overtakes an earlier one (held ACKs, jitter, application-limited flows - the latter oracle-only); direct oracle:
   the sender's acknowledged mark `last_ack` never decreases (`loop-lastack-decreased`; in the sndk leg `sndk-lastack-decreased`).
 """
+from vlib.util import guarded_leg
 import collections, copy, itertools, json, random
 
 from harness import tcpsim
@@ -695,6 +696,7 @@ ASSUMPTIONS.append('the sender process on the real kernel refines the sender LTS
                    'real TCPPacketGenerator under ACK scripts (sndk leg)')
 
 
+@guarded_leg(None)
 def run_sndk(ctx, res=None):
     """Extra leg for Props/C16K.lean: the K program of the TCP sender (run / put / timeout_callback / resend_packet, one Timer
     process per segment, a network-script process delivering ACKs into put), run at Float by the compiled driver, against the
